@@ -91,10 +91,14 @@ def gen_spec(rng, profile):
     big = target > 600
     if big:
         ncols = min(ncols, 4)
+    if target > 20000:
+        ncols = min(ncols, 3)
     wl = gen_lines_for(rng, target, s, ncols=ncols, malformed=rng.choice(profile.get('malformed', [0.0])), opts=profile.get('colopts'))
     heuristic = rng.choice(profile.get('heuristics', ['MI-numba-randomized']))
     if big and heuristic in ('MI', 'AMI'):
         heuristic = 'MI-numba-randomized'
+    if target > 20000:
+        heuristic = rng.choice(['max-value-coverage', 'MI-numba-randomized', 'MI-numba-3mr'])
     cli = {
         'heuristic': heuristic, 'minibatch_size': m, 'subsampling': s,
         'num_threads': rng.choice(profile.get('pool_sizes', POOL_SIZES)),
